@@ -569,3 +569,6 @@ def run(ctx: Context) -> None:
     ctx.isolate(c06.r8b_task_is_complete, rule="C02.R7")
     ctx.isolate(r8_release_event_uses_own_time)
     ctx.isolate(c06.r9_cascade_exemptions, _alias={"C06.R9": "C02.R9", "C06.R11": "C02.R9b"})
+    # the branch not taken is cancelled (otherwise its SCHEDULED tasks start without release and the join starts early): C07.R1
+    from . import c07
+    ctx.isolate(c07.r1_one_of_n, _alias={"C07.R1": "C02.R10"})
